@@ -520,6 +520,7 @@ def rule_r3_r4(ctx):
         n += 1
         ctx.check("R3", f"S1 {f.local}: {label}"[:150], ok, f, node, detail, how="GRAPH/GRAPHS sibling agreement", construct=f"S1 {label}")
     ctx.require(n >= 1, "no GRAPH/GRAPHS dispatch in the cloner")
+    rule_outer_scope_explicit(ctx)
     w = repo.cls("onnx_ir.passes._pass_infra:_FunctionalPassWrapper").methods.get("call")
     ctx.require(w is not None, "_FunctionalPassWrapper.call not found")
     mp = w.params[1]
@@ -549,6 +550,60 @@ def rule_s3(ctx):
                       how="initialised false outside the loop, read after it; in-loop assignments are True / flag or x / |= / +=",
                       construct=f"non-monotone accumulator {name}")
     ctx.require(n >= 2, f"only {n} accumulator flags found in the cloner")
+
+
+def rule_outer_scope_explicit(ctx, rule="R3"):
+    """Outer-scope references survive in a clone only when the CALLER allowed it: every construction of the cloner
+    leaves allow_outer_scope_values at its (false) default, passes a false literal, or forwards a parameter of the
+    enclosing function whose own default is false."""
+    repo = ctx.repo
+    cl = repo.cls(f"{CL}:Cloner")
+    init = cl.methods.get("__init__") if cl else None
+    ctx.require(init is not None, "Cloner.__init__ not found")
+    opt = next((p_ for p_ in init.params if "outer_scope" in p_), None)
+    ctx.require(opt is not None, "Cloner.__init__ has no outer-scope option")
+    dflt = _param_default(init, opt)
+    n = 0
+    for f in repo.all_funcs():
+        if not f.key.startswith("onnx_ir") or isinstance(f.node, ast.Lambda):
+            continue
+        for c in calls_in(f):
+            if (dotted_of(c.func) or "").split(".")[-1] != "Cloner":
+                continue
+            n += 1
+            arg = next((k.value for k in c.keywords if k.arg == opt), None)
+            if arg is None and len(c.args) > init.params.index(opt) - 1 >= 0:
+                arg = c.args[init.params.index(opt) - 1]
+            if arg is None:
+                ok, why = True, "left at the constructor's default"
+            elif isinstance(arg, ast.Constant):
+                ok, why = not arg.value, f"literal {arg.value!r}"
+            elif isinstance(arg, ast.Name) and arg.id in f.params:
+                d = _param_default(f, arg.id)
+                ok, why = isinstance(d, ast.Constant) and not d.value, f"forwards parameter `{arg.id}` (default {norm(d) if d is not None else 'none'})"
+            else:
+                ok, why = False, f"computed: {norm(arg)}"
+            ctx.check(rule, f"{f.local}: Cloner({opt}) is the caller's explicit choice ({why})", ok, f, c,
+                      f"{f.local} builds its cloner with {opt} = {norm(arg) if arg is not None else ''} ({why}): values of an enclosing scope are wired into the "
+                      "clone although the caller never allowed it - the clone silently refers to objects of the source and the promised error is not raised",
+                      how="argument of every Cloner construction: absent, false literal, or a forwarded parameter whose default is false",
+                      construct=f"Cloner {opt} in {f.local}")
+    ctx.require(n >= 3, "constructions of the cloner not found")
+    if dflt is not None:
+        ctx.check(rule, f"Cloner.__init__: {opt} defaults to false", isinstance(dflt, ast.Constant) and not dflt.value, init, init.node,
+                  "outer-scope references are allowed by default", how="default of the constructor parameter")
+
+
+def _param_default(f, name):
+    a = f.node.args
+    pos = a.posonlyargs + a.args
+    for p_, d in zip(reversed(pos), reversed(a.defaults)):
+        if p_.arg == name:
+            return d
+    for p_, d in zip(a.kwonlyargs, a.kw_defaults):
+        if p_.arg == name:
+            return d
+    return None
 
 
 def run(ctx):
